@@ -487,7 +487,7 @@ fn run(args: &Args) {
     let names: Vec<String> = cx.exercised_ip.iter().cloned().collect();
     let req = format!("cov {}", names.join(","));
     // in-place-capable operators the catalogue cannot build (declared, see checks/C13.json level_note)
-    cx.out.case(&req, "missing=AddSoftmax,Attention,GroupQueryAttention,MultiHeadAttention,Silu", None, true);
+    cx.out.case(&req, "missing=Attention,GroupQueryAttention,MultiHeadAttention", None, true);
     let comm: Vec<String> = cx.exercised_comm.iter().cloned().collect();
     cx.out.note(&format!("in-place operators exercised: {}", names.join(",")));
     cx.out.note(&format!("commutative operators exercised: {}", comm.join(",")));
